@@ -40,6 +40,8 @@ struct Directive {
     before_return: BTreeMap<usize, String>,
     /// (line-prefix, text): proof text inserted before the first printed line starting with the prefix
     before_stmt: Vec<(String, String)>,
+    /// (generated accumulator name, type): adds the annotation Rust's inference cannot supply through invariants
+    let_types: Vec<(String, String)>,
     from_fn: BTreeMap<usize, usize>,
     expect_loops: Option<usize>,
     attrs: String,
@@ -97,6 +99,7 @@ fn parse_template(text: &str) -> Vec<(bool, String, Option<Directive>)> {
                         section = None;
                     }
                     "ret" => d.ret = Some(args[0].to_string()),
+                    "let-type" => d.let_types.push((args[0].to_string(), args[1..].join(" "))),
                     "loops" => d.expect_loops = Some(args[0].parse().unwrap()),
                     "from_fn" => {
                         d.from_fn.insert(args[0].parse().unwrap(), args[1].parse().unwrap());
@@ -117,6 +120,11 @@ fn parse_template(text: &str) -> Vec<(bool, String, Option<Directive>)> {
                     "before-stmt" => {
                         let pat = rest["before-stmt".len()..].trim().to_string();
                         d.before_stmt.push((pat, String::new()));
+                        section = Some("stmt".to_string());
+                    }
+                    "after-stmt" => {
+                        let pat = rest["after-stmt".len()..].trim().to_string();
+                        d.before_stmt.push((format!("\u{2}{pat}"), String::new()));
                         section = Some("stmt".to_string());
                     }
                     "before-return" => {
@@ -370,20 +378,36 @@ fn splice(printed: &str, d: &Directive, nloops: usize, nrets: usize) -> Result<S
     for (pat, txt) in &d.before_stmt {
         let mut done = false;
         let mut out2: Vec<String> = Vec::new();
+        let after = pat.starts_with('\u{2}');
+        let pat = pat.trim_start_matches('\u{2}');
+        let mut pending: Option<usize> = None; // indentation of the matched statement (after-stmt)
         for l in out.into_iter() {
-            if !done && l.trim_start().starts_with(pat.as_str()) {
+            if !done && pending.is_none() && l.trim_start().starts_with(pat) {
                 let ind = l.len() - l.trim_start().len();
-                out2.push(indent(txt, ind));
+                if after { pending = Some(ind); } else {
+                    out2.push(indent(txt, ind));
+                    done = true;
+                }
+            }
+            let is_end = pending.map(|ind| l.len() - l.trim_start().len() == ind && l.trim_end().ends_with(';')).unwrap_or(false);
+            out2.push(l);
+            if is_end {
+                out2.push(indent(txt, pending.unwrap()));
+                pending = None;
                 done = true;
             }
-            out2.push(l);
         }
         out = out2;
         if !done {
-            return Err(format!("side-car anchor `before-stmt {pat}` not found in the function (anchor lost)"));
+            return Err(format!("side-car anchor `{}-stmt {pat}` not found in the function (anchor lost)", if after { "after" } else { "before" }));
         }
     }
     let mut s = out.join("\n");
+    for (name, ty) in &d.let_types {
+        let from = format!("let mut {name} = Vec::new();");
+        if !s.contains(&from) { return Err(format!("side-car let-type {name}: accumulator not found (anchor lost)")); }
+        s = s.replace(&from, &format!("let mut {name}: {ty} = Vec::new();"));
+    }
     // named return value
     if let Some(r) = &d.ret {
         if let Some(pos) = s.find("__vx_ret!(") {
@@ -564,6 +588,11 @@ fn main() {
             Found::Other(mut it) => {
                 let sp = span_lines(it.span());
                 norm::strip_item_attrs(&mut it);
+                {
+                    let mut f = norm::FoldShl(0);
+                    f.visit_item_mut(&mut it);
+                    if f.0 > 0 { n.rules.push(norm::RuleApp { rule: "N23".into(), line: sp.0, note: format!("{} literal shift(s) folded", f.0) }); }
+                }
                 // structs: every field made `pub` (the unit is one crate; privacy is not what is being verified)
                 if let syn::Item::Struct(st) = &mut it {
                     let mut widened = false;
